@@ -169,9 +169,15 @@ func txImpl(line string) string {
 			if sharedPkg == nil {
 				sharedPkg = tds.NewTokenlessPackage()
 			}
-			pkg := sharedPkg
-			pkg.Data.Reset()
-			pkg.Data.Write(pl)
+			var pkg tds.Package = sharedPkg
+			sharedPkg.Data.Reset()
+			sharedPkg.Data.Write(pl)
+			if len(pl)%3 == 1 || len(pl) == psize-8 || len(pl) == 2*(psize-8) {
+				// the same bytes written the way the real package types write theirs: field by field through the
+				// typed writers (one-byte fields incl. the LAST byte of the package, two-, four- and eight-byte
+				// little-endian fields, strings) — what reaches the wire depends on the bytes only
+				pkg = &typedWritesPackage{data: append([]byte{}, pl...), mode: len(pl) + len(msgPayload)}
+			}
 			msgPayload = append(msgPayload, pl...)
 			if f[0] == "q" {
 				e = ch.QueuePackage(ctx, pkg)
@@ -538,4 +544,58 @@ func init() {
 		Rule:        "messages through the real Channel (QueuePackage/SendRemainingPackets/SendPackage of TokenlessPackages) over a capturing transport: packet sizes {256,257,511,512,513,2048,65535} x boundary lengths k*(psize-8)+{-1,0,1}, k=0..4, x random splits into 1..4 packages and call splits, channel ids 0 and >0 with random start packet numbers, header types; 2-3 message histories with a packet size change; random sizes; thorough adds a sweep over packet sizes 256..65535. Non-trivial = at least two packets on the wire",
 		Assumptions: []string{"packages are modelled by their encoding (TokenlessPackage with the given bytes); codecs are C06's business", "the transport accepts every write completely"},
 	})
+}
+
+// typedWritesPackage writes its bytes through the typed writers of the BytesChannel, cycling through them;
+// the last byte always goes through a one-byte writer.
+type typedWritesPackage struct {
+	data []byte
+	mode int
+}
+
+func (p *typedWritesPackage) ReadFrom(tds.BytesChannel) error { return nil }
+func (p *typedWritesPackage) String() string                  { return "typedWritesPackage" }
+func (p *typedWritesPackage) WriteTo(ch tds.BytesChannel) error {
+	d := p.data
+	k := p.mode
+	for len(d) > 0 {
+		var err error
+		n := 1
+		switch {
+		case len(d) == 1:
+			switch k % 3 {
+			case 0:
+				err = ch.WriteByte(d[0])
+			case 1:
+				err = ch.WriteUint8(d[0])
+			default:
+				err = ch.WriteInt8(int8(d[0]))
+			}
+		case k%7 == 0:
+			err = ch.WriteByte(d[0])
+		case k%7 == 1 && len(d) > 2:
+			n = 2
+			err = ch.WriteUint16(binary.LittleEndian.Uint16(d))
+		case k%7 == 2 && len(d) > 4:
+			n = 4
+			err = ch.WriteInt32(int32(binary.LittleEndian.Uint32(d)))
+		case k%7 == 3 && len(d) > 8:
+			n = 8
+			err = ch.WriteUint64(binary.LittleEndian.Uint64(d))
+		case k%7 == 4 && len(d) > 5:
+			n = 5
+			err = ch.WriteString(string(d[:5]))
+		case k%7 == 5 && len(d) > 3:
+			n = 3
+			err = ch.WriteBytes(d[:3])
+		default:
+			err = ch.WriteUint8(d[0])
+		}
+		if err != nil {
+			return err
+		}
+		d = d[n:]
+		k++
+	}
+	return nil
 }
